@@ -175,3 +175,177 @@ def gen_case(rng, nvars=None, falsy=True, neg=True, maxdepth=3, select='all', do
     if cond is not None and cond[0] == 'and' and rng.random() < 0.2:
         cond = cond[:3] + ['args']
     return dict(heap=heap, doms=[d for d in doms if d[0] in mentioned], binders=binders, sel=sel, cond=cond, form=form)
+
+
+# ------------------------------------------------------------------------------------------------ special shapes
+def _base(rng, nvars, nobj=None, falsy=True, dom_max=4, dom_min=1):
+    nobj = nobj or rng.randint(2, 6)
+    heap = gen_heap(rng, nobj, falsy)
+    doms = [[k, rng.sample(range(nobj), rng.randint(dom_min, min(dom_max, nobj)))] for k in range(1, nvars + 1)]
+    return heap, doms
+
+
+def gen_case_the(rng, tier):
+    """all variables selected, quantifier `the`; small domains so that 0 / 1 / >=2 solutions are all frequent"""
+    nv = rng.choice([1, 1, 2])
+    c = gen_case(rng, nvars=nv, falsy=True, neg=True, maxdepth=2, select='all', dom_max=3 if nv == 1 else 2)
+    keys = [d[0] for d in c['doms']]
+    sel = list(keys)
+    rng.shuffle(sel)
+    c['sel'] = [['var', k] for k in sel]
+    c['form'] = 'entity' if len(sel) == 1 and rng.random() < 0.5 else 'set_of'
+    c['quant'] = 'the'
+    return c
+
+
+def gen_case_forall(rng, tier):
+    """for_all(u, c') possibly and-ed with a condition on the free variables; u = key 9 with its own non-empty domain"""
+    nfree = rng.choice([1, 1, 2])
+    heap, doms = _base(rng, nfree, dom_max=3)
+    nobj = len(heap)
+    g = Gen(rng, nfree, maxdepth=2)
+    inner = Gen(rng, nfree, maxdepth=2)
+    inner.keys = list(range(1, nfree + 1)) + [9, 9]          # the universal variable is mentioned often
+    mode = rng.random()
+    if mode < 0.2:
+        inner.keys = [9]                                      # only the universal variable
+    elif mode < 0.35:
+        inner.keys = list(range(1, nfree + 1))                # only the free variables
+    body = inner.cond(rng.randint(0, 2))
+    doms.append([9, rng.sample(range(nobj), rng.randint(1, min(3, nobj)))])
+    cond = ['forall', 9, body]
+    if rng.random() < 0.5:
+        other = g.cond(rng.randint(0, 1))
+        cond = ['and', other, cond, 'fn'] if rng.random() < 0.5 else ['and', cond, other, 'fn']
+    sel = [['var', k] for k in range(1, nfree + 1)]
+    rng.shuffle(sel)
+    return dict(heap=heap, doms=doms, binders=[['var', k] for k in range(1, nfree + 1)], sel=sel, cond=cond,
+                form='entity' if len(sel) == 1 and rng.random() < 0.5 else 'set_of')
+
+
+def wrap_subs(rng, c, p=0.35):
+    """wrap random sub-conditions as an(entity(v, c)) / an(set_of(vs, c))"""
+    k = c[0]
+    if k in ('and', 'or'):
+        c = [k, wrap_subs(rng, c[1], p), wrap_subs(rng, c[2], p), 'op' if rng.random() < 0.7 else 'fn']
+    if k in ('not',):
+        return c
+    if rng.random() < p:
+        ks = sorted(cond_keys(c, set()))
+        if ks:
+            sel = rng.sample(ks, rng.randint(1, len(ks)))
+            return ['sub', [['var', v] for v in sel], c]
+    return c
+
+
+def gen_case_sub(rng, tier):
+    nv = rng.choice([1, 2, 2, 3])
+    c = gen_case(rng, nvars=nv, falsy=True, neg=False, maxdepth=3, select=rng.choice(['all', 'some']), dom_max=3)
+    while c['cond'] is None:
+        c = gen_case(rng, nvars=nv, falsy=True, neg=False, maxdepth=3, select=rng.choice(['all', 'some']), dom_max=3)
+    if c['cond'][0] == 'and' and len(c['cond']) > 3 and c['cond'][3] == 'args':
+        c['cond'][3] = 'fn'
+    inlined = c['cond']
+    c['cond'] = wrap_subs(rng, c['cond'])
+    used = cond_keys(c['cond'], set())
+    from qcase import term_keys
+    for t in c['sel']:
+        term_keys(t, used)
+    keys = {d[0] for d in c['doms']}
+    missing = used - keys
+    c['binders'] = [['var', k] for k in sorted(used)]
+    return c
+
+
+def gen_case_flat(rng, tier):
+    """parent variable 1, flatten node 5 over parent.items / parent.pair / a scalar attribute"""
+    heap, doms = _base(rng, 1, dom_max=4)
+    inner_field = rng.choice(['items', 'items', 'items', 'pair', 'a'])
+    ft = ['map', ['f', F[inner_field]], ['var', 1]]
+    flat = ['flat', 5, ft]
+    sel = rng.choice([[['var', 1], flat], [flat, ['var', 1]], [flat], [['var', 1], flat]])
+    r = rng.random()
+    if r < 0.35:
+        cond = None
+    elif r < 0.6:
+        cond = ['cmp', rng.choice(OPS), flat, ['lit', rng.choice(INT_ALPHA)]]
+    elif r < 0.75:
+        cond = ['cmp', rng.choice(OPS), flat, ['map', ['f', F[rng.choice('ab')]], ['var', 1]]]
+    elif r < 0.85:
+        cond = ['and', ['cmp', rng.choice(OPS), ['map', ['f', F['a']], ['var', 1]], ['lit', rng.choice(INT_ALPHA)]],
+                ['cmp', rng.choice(OPS), flat, ['lit', rng.choice(INT_ALPHA)]], 'fn']
+    elif r < 0.93:
+        cond = ['or', ['cmp', rng.choice(OPS), flat, ['lit', rng.choice(INT_ALPHA)]],
+                ['cmp', '==', flat, ['map', ['f', F['b']], ['var', 1]]], 'fn']
+    else:
+        cond = ['in', flat, ['map', ['f', F['pair']], ['var', 1]]]
+    return dict(heap=heap, doms=doms, binders=[['var', 1], ['flat', 5, ft]], sel=sel, cond=cond, form='set_of' if len(sel) > 1 or rng.random() < 0.5 else 'entity')
+
+
+def gen_case_concat(rng, tier):
+    """concatenate(x.items) (node 6, inner variable 1) alone, or tested for (non-)membership by an outer variable 2"""
+    heap, doms = _base(rng, 2, dom_max=4)
+    inner_field = rng.choice(['items', 'items', 'pair', 'a'])
+    ct = ['map', ['f', F[inner_field]], ['var', 1]]
+    conc = ['concat', 6, ct]
+    if rng.random() < 0.15:
+        doms[0][1] = []                                        # no parent at all
+    if rng.random() < 0.2 and inner_field == 'items':
+        for i in doms[0][1]:
+            heap[i][3] = []                                    # every inner collection empty
+    r = rng.random()
+    if r < 0.35:
+        return dict(heap=heap, doms=[doms[0]], binders=[['concat', 6, 1, ct]], sel=[conc], cond=None, form='entity')
+    item = ['map', ['f', F[rng.choice('ab')]], ['var', 2]]
+    cond = ['in', item, conc] if rng.random() < 0.5 else ['contains', conc, item]
+    if rng.random() < 0.4:
+        cond = ['not', cond, 'fn']
+    return dict(heap=heap, doms=doms, binders=[['concat', 6, 1, ct], ['var', 2]], sel=[['var', 2]], cond=cond,
+                form='entity' if rng.random() < 0.6 else 'set_of')
+
+
+# ------------------------------------------------------------------------------------------------ rewrites (C18)
+MIRROR = {'<': '>', '>': '<', '<=': '>=', '>=': '<=', '==': '==', '!=': '!='}
+
+
+def rewrite_cond(rng, c):
+    k = c[0]
+    if k in ('and', 'or'):
+        a, b = rewrite_cond(rng, c[1]), rewrite_cond(rng, c[2])
+        style = rng.choice(['fn', 'op', 'chain'])
+        r = rng.random()
+        if r < 0.35:
+            return [k, b, a, style]                               # commutativity
+        if r < 0.55 and a[0] == k:
+            return [k, a[1], [k, a[2], b, rng.choice(['fn', 'op'])], style]      # (p.q).r -> p.(q.r)
+        if r < 0.75 and b[0] == k:
+            return [k, [k, a, b[1], rng.choice(['fn', 'op', 'chain'])], b[2], style]   # p.(q.r) -> (p.q).r
+        return [k, a, b, style]
+    if k == 'not':
+        return ['not', rewrite_cond(rng, c[1]), rng.choice(['fn', 'op'])]
+    if k == 'cmp' and rng.random() < 0.6:
+        return ['cmp', MIRROR[c[1]], c[3], c[2]]                 # a < b  as  b > a (also moves a literal to the other side)
+    if k == 'in' and rng.random() < 0.6:
+        return ['contains', c[2], c[1]]
+    if k == 'contains' and rng.random() < 0.6:
+        return ['in', c[2], c[1]]
+    return c
+
+
+def gen_pair(rng, tier):
+    nv = rng.choice([1, 2, 2, 3])
+    orig = gen_case(rng, nvars=nv, falsy=True, neg=True, maxdepth=3, select=rng.choice(['all', 'some']), dom_max=3)
+    var = dict(orig)
+    var['cond'] = rewrite_cond(rng, orig['cond']) if orig['cond'] is not None else None
+    if var['cond'] is not None and var['cond'][0] == 'and' and rng.random() < 0.2:
+        var['cond'] = var['cond'][:3] + ['args']
+    doms = [[k, list(d)] for k, d in orig['doms']]
+    for d in doms:
+        rng.shuffle(d[1])                                         # permute the elements of every domain
+    rng.shuffle(doms)                                             # order in which the variables are declared
+    var['doms'] = doms
+    perm = list(range(len(orig['sel'])))
+    rng.shuffle(perm)                                             # order in which they are selected
+    var['sel'] = [orig['sel'][i] for i in perm]
+    var['form'] = 'set_of' if len(var['sel']) > 1 else rng.choice(['entity', 'set_of'])
+    return dict(orig=orig, variant=var, perm=perm)
